@@ -151,6 +151,10 @@ func recheck(oracle string, ops, res []string) (bool, string) {
 		if !ok || c != 0 {
 			return true, "build metadata changes comparison: " + res[0]
 		}
+	case "sortcls": // the same multiset in two input orders sorts to the same class sequence
+		if res[0] != res[1] {
+			return true, "sorted class sequences differ for two input orders: " + res[0] + " vs " + res[1]
+		}
 	case "history": // re-execute: result must not depend on earlier calls
 		for i, l := range ops {
 			f := strings.Fields(l)
@@ -170,6 +174,18 @@ func recheck(oracle string, ops, res []string) (bool, string) {
 
 func classify(oracle string, ops, res []string) string {
 	// Maven's own intransitivity (ComparableVersion <= 3.8.6): some member is ZeroDotQual.
+	if oracle == "sortcls" {
+		f := strings.Fields(ops[0])
+		if semverops.SysNames[f[2]] != semver.Maven {
+			return ""
+		}
+		for _, h := range f[3:] {
+			if zeroDotQual(canonOf(semver.Maven, fw.Unhx(h))) {
+				return "F-C01-mvn-zeroq"
+			}
+		}
+		return ""
+	}
 	if oracle != "trans" && oracle != "congr" {
 		return ""
 	}
@@ -304,6 +320,31 @@ func run(c *fw.Ctx) {
 				k2, _ := c.Op(cmpLine(sys, wb, pool[j]))
 				c.Check("congr", k, k1, k2)
 			}
+		}
+		// sorting yields the same sequence of equivalence classes whatever the input order
+		for t := 0; t < 6 && n > 3; t++ {
+			k := 8 + c.Rng.Intn(12)
+			sub := make([]string, 0, k)
+			for i := 0; i < k; i++ {
+				x := pool[c.Rng.Intn(n)]
+				if sys == semver.Maven && zeroDotQual(canonOf(sys, x)) {
+					continue // the reference algorithm's own intransitivity: sorting is then order dependent
+				}
+				sub = append(sub, x)
+			}
+			line := func(xs []string) string {
+				var sb strings.Builder
+				fmt.Fprintf(&sb, "C01 sortcls %s", sys)
+				for _, x := range xs {
+					sb.WriteString(" " + fw.Hx(x))
+				}
+				return sb.String()
+			}
+			i1, _ := c.Op(line(sub))
+			perm := append([]string(nil), sub...)
+			c.Rng.Shuffle(len(perm), func(i, j int) { perm[i], perm[j] = perm[j], perm[i] })
+			i2, _ := c.Op(line(perm))
+			c.Check("sortcls", i1, i2)
 		}
 		// history independence on a sample
 		for t := 0; t < 40 && n > 0; t++ {
